@@ -139,6 +139,111 @@ def all_cpus():
 
 
 FULL = None
+_errno_loc = None
+
+
+def poison_errno(v):
+    """write `v` into the thread's real errno (what an earlier, unrelated libc call could have left there)"""
+    global _errno_loc
+    if _errno_loc is None:
+        f = libc.__errno_location
+        f.restype = ctypes.POINTER(ctypes.c_int)
+        _errno_loc = f()
+    _errno_loc[0] = int(v)
+
+
+def _script(name, text):
+    with open(os.path.join(SCRATCH, name), "w") as f:
+        f.write(text)
+
+
+def _unscript(name):
+    try:
+        os.unlink(os.path.join(SCRATCH, name))
+    except OSError:
+        pass
+
+
+def sval(x):
+    return None if x is None else (x.encode("utf-8", "surrogateescape").hex() if isinstance(x, str) else x)
+
+
+def do_ifaddrs(c):
+    """cext_posix.net_if_addrs() over a scripted getifaddrs() list (needs the shim2 preload)."""
+    lines = []
+    for e in c["entries"]:
+        lines.append("%s %d %s %s %s" % (e["name"] or "00", e["flags"], e["addr"] or "-", e["netmask"] or "-", e["ifu"] or "-"))
+    _script("ifaddrs.txt", "\n".join(lines) + "\n")
+    try:
+        if c.get("errno") is not None:
+            poison_errno(c["errno"])
+        rows = cext_posix.net_if_addrs()
+        out = {"kind": "ok", "rows": [[sval(v) for v in r] for r in rows]}
+    except Exception as e:  # noqa: BLE001
+        out = exc_obs(e)
+    finally:
+        _unscript("ifaddrs.txt")
+    return out
+
+
+def do_ifr(c):
+    """the four ifreq entry points over a scripted ioctl(); reports the ifr_name bytes each ioctl carried"""
+    _script("ioctl.txt", "%d %d %d %d %d %d %d\n" % (c["ret"], c["err"], c["mtu"], c["flags"], c["lo"], c["hi"], c["duplex"]))
+    _unscript("ioctl.out")
+    name = os.fsdecode(bytes.fromhex(c["name"]))
+    out = {}
+    try:
+        for key, fn in (("mtu", cext_posix.net_if_mtu), ("flags", cext_posix.net_if_flags), ("running", cext_posix.net_if_is_running),
+                        ("duplex_speed", cext.net_if_duplex_speed)):
+            try:
+                if c.get("errno") is not None:
+                    poison_errno(c["errno"])
+                out[key] = {"kind": "value", "value": fn(name)}
+            except Exception as e:  # noqa: BLE001
+                out[key] = exc_obs(e)
+        try:
+            with open(os.path.join(SCRATCH, "ioctl.out")) as f:
+                out["ioctls"] = [l.split() for l in f.read().splitlines()]
+        except OSError:
+            out["ioctls"] = []
+    finally:
+        _unscript("ioctl.txt")
+        _unscript("ioctl.out")
+    return out
+
+
+def do_sysinfo(c):
+    _script("sysinfo.txt", " ".join(str(v) for v in c["vals"]) + "\n")
+    try:
+        if c.get("errno") is not None:
+            poison_errno(c["errno"])
+        return {"kind": "value", "value": list(cext.linux_sysinfo())}
+    except Exception as e:  # noqa: BLE001
+        return exc_obs(e)
+    finally:
+        _unscript("sysinfo.txt")
+
+
+def do_getprio(c):
+    """posix.getpriority() of the sacrificial child at a chosen nice value, with a stale errno on entry"""
+    pid = child() if c["target"] == "child" else PID_MAX_PLUS
+    out = {}
+    if c["target"] == "child":
+        try:
+            os.setpriority(os.PRIO_PROCESS, pid, int(c["nice"]))
+            out["nice_set"] = os.getpriority(os.PRIO_PROCESS, pid)
+        except OSError as e:
+            out["nice_set"] = None
+            out["set_error"] = errno.errorcode.get(e.errno, str(e.errno))
+    try:
+        poison_errno(c["errno"])
+        out.update({"kind": "value", "value": cext_posix.getpriority(pid)})
+    except Exception as e:  # noqa: BLE001
+        out.update(exc_obs(e))
+        if isinstance(e, OSError) and e.errno is not None:
+            out["errno_num"] = e.errno
+    return out
+
 
 
 def do_users(c):
@@ -231,6 +336,8 @@ def do_call(c):
         except Exception:  # noqa: BLE001
             pass
     try:
+        if c.get("errno") is not None:
+            poison_errno(c["errno"])
         r = fn(*args)
         out["kind"] = "value"
         if c.get("want"):
@@ -302,7 +409,8 @@ def do_entrypoints(c):
 
 
 HANDLERS = {"users": do_users, "partitions": do_partitions, "call": do_call, "ionice": do_ionice,
-            "netif": do_netif, "entrypoints": do_entrypoints, "ping": lambda c: {"pong": os.getpid()}}
+            "netif": do_netif, "ifaddrs": do_ifaddrs, "ifr": do_ifr, "sysinfo": do_sysinfo, "getprio": do_getprio,
+            "entrypoints": do_entrypoints, "ping": lambda c: {"pong": os.getpid()}}
 
 
 def main():
